@@ -221,10 +221,6 @@ def parseDev (s : String) : Option Dev :=
            delOneAbsent := s.contains 'a' }
   else none
 
-/-- the driver-level deviation `t` (filterRootLast), on in the code as it is: it lives in the reading of the path, not
-in `Dev` (a `Frag.filter` carries a predicate on the element; which document `$` names is fixed when the path is read) -/
-def currentT : Bool := true
-
 /-- the letters of a request: `C` is the code as it is, `t` is split off the others -/
 def parseDevT (s : String) : Option (Dev × Bool) :=
   if s = "C" then some (Dev.current, currentT)
